@@ -228,6 +228,7 @@ def run(prog: Program, rep: Report, tier: str):
     rep.rule("R03.2", "scalar/temporal returns are class-guarded, constructed, or delegated", floor=25)
     rep.rule("R03.3", "fixed-tuple arity", floor=1)
     rep.rule("R03.4", "Literal membership dominates every return; fall-through raises ValueError", floor=4)
+    rep.rule("R03.6", "composite forms reach the routine of their own structural kind (fixed tuples keep arity/positions; shared with R01.6)", floor=15)
     rep.rule("R03.5", "origin map yields concrete constructors of the mapped kind (shared with R17.1)", floor=18)
     r03_1(prog, rep)
     r03_2(prog, rep)
@@ -236,3 +237,11 @@ def run(prog: Program, rep: Report, tier: str):
     from . import c17
 
     c17.origin_map_kinds(prog, rep, rule="R03.5")
+    from ..report import Report as _R, absorb
+    from . import c01
+
+    sub = _R("C03", tier)
+    sub.rule("R01.6", "", 0)
+    pe = C.PredEval(prog)
+    c01.r01_6(prog, sub, C.handlers(prog, "marshal"), C.handlers(prog, "unmarshal"), pe)
+    absorb(rep, sub, {"R01.6": "R03.6"})
